@@ -25,7 +25,7 @@ package signing
 // the group public key this party holds, and it is in canonical form.
 //@ define r9slot(m) = (!isnil(m) && istype(msgcontent(m), "*ecdsa/signing.SignRound9Message") && cast(msgcontent(m), "*ecdsa/signing.SignRound9Message") != nil)
 //@ func (*finalization).Start
-//@   props C01 C06
+//@   props C01 C06 C20
 //@   requires round != nil && round.round9 != nil && round.round9.round8 != nil && round.round9.round8.round7 != nil && round.round9.round8.round7.round6 != nil && round.round9.round8.round7.round6.round5 != nil && round.round9.round8.round7.round6.round5.round4 != nil && round.round9.round8.round7.round6.round5.round4.round3 != nil && round.round9.round8.round7.round6.round5.round4.round3.round2 != nil && round.round9.round8.round7.round6.round5.round4.round3.round2.round1 != nil && round.round9.round8.round7.round6.round5.round4.round3.round2.round1.base != nil
 //@   requires wfParams(round.Parameters) && issecp(round.Parameters.ec) && wfIDs(round.Parameters.parties.partyIDs)
 //@   requires round.temp != nil && round.data != nil && round.key != nil && round.end != nil
@@ -142,7 +142,7 @@ package signing
 //@ define peerOf(round, p) = (p != nil && 0 <= p.Index && p.Index < sgN(round) && p.Index != sgI(round) && round.Parameters.parties.partyIDs[p.Index] == p)
 //@ define errBlamesPeer(round, ch, m) = (errAt(ch, m) != nil && allocated(errAt(ch, m)) && allocated(arr(errAt(ch, m).culprits)) && len(errAt(ch, m).culprits) == 1 && peerOf(round, errAt(ch, m).culprits[0]))
 //@ func (*round3).Start
-//@   props C06 C05 C01
+//@   props C06 C05 C01 C20
 //@   requires round != nil && round.round2 != nil && round.round2.round1 != nil && round.round2.round1.base != nil && ecSignWF(round) && ecSignKey(round)
 //@   requires [round-2-complete] forall j in 0..sgN(round) :: (j != sgI(round) ==> (sg2slot(round.temp.signRound2Messages[j]) && round.temp.cis[j] != nil && round.temp.betas[j] != nil && round.temp.vs[j] != nil && (round.temp.bigWs[j] != nil ==> validPoint(round.temp.bigWs[j]))))
 //@   requires [own-round-1-values] round.temp.k != nil && round.temp.gamma != nil && round.temp.w != nil && val(round.temp.k) >= 0 && val(round.temp.gamma) >= 0 && val(round.temp.w) >= 0 && len(round.temp.ssid) <= 4096
@@ -214,7 +214,7 @@ package signing
 //@ define sgSepW(round) = (round.temp.bigWs[sgI(round)] != nil ==> (arr(round.temp.betas) != arr(round.temp.bigWs[sgI(round)].coords) && arr(round.temp.c1jis) != arr(round.temp.bigWs[sgI(round)].coords) && arr(round.temp.vs) != arr(round.temp.bigWs[sgI(round)].coords) && arr(round.temp.c2jis) != arr(round.temp.bigWs[sgI(round)].coords)))
 //@ define sg2Elems(round) = ((forall k in 0..sgN(round) :: (round.key.NTildej[k] != nil && round.key.H1j[k] != nil && round.key.H2j[k] != nil)) && ecSignKeySizes(round))
 //@ func (*round2).Start
-//@   props C06 C05 C01
+//@   props C06 C05 C01 C20
 //@   requires round != nil && round.round1 != nil && round.round1.base != nil && ecSignWF(round) && ecSignKey(round) && ecSignKeySizes(round) && sgSep(round) && sgSepW(round)
 //@   requires [round-1-complete] forall j in 0..sgN(round) :: (j != sgI(round) ==> sg1m1slot(round.temp.signRound1Message1s[j]))
 //@   requires [own-round-1-values] round.temp.gamma != nil && round.temp.w != nil && len(round.temp.ssid) <= 4096 && cap(round.temp.ssid) == len(round.temp.ssid) && (round.temp.bigWs[sgI(round)] != nil ==> validPoint(round.temp.bigWs[sgI(round)]))
@@ -233,7 +233,7 @@ package signing
 // round_4.go: invert the sum of the broadcast theta values.
 //@ define sg3slot(m) = (!isnil(m) && istype(msgcontent(m), "*ecdsa/signing.SignRound3Message") && cast(msgcontent(m), "*ecdsa/signing.SignRound3Message") != nil)
 //@ func (*round4).Start
-//@   props C06 C05 C01
+//@   props C06 C05 C01 C20
 //@   requires round != nil && round.round3 != nil && round.round3.round2 != nil && round.round3.round2.round1 != nil && round.round3.round2.round1.base != nil && ecSignWF(round)
 //@   requires [round-3-complete] forall j in 0..sgN(round) :: (j != sgI(round) ==> sg3slot(round.temp.signRound3Messages[j]))
 //@   requires [own-values] round.temp.theta != nil && val(round.temp.theta) >= 0 && round.temp.gamma != nil && val(round.temp.gamma) >= 0 && round.temp.pointGamma != nil && validPoint(round.temp.pointGamma) && round.temp.pointGamma.curve == round.Parameters.ec && len(round.temp.ssid) <= 4096 && cap(round.temp.ssid) == len(round.temp.ssid) && (forall k in 0..len(round.temp.deCommit) :: round.temp.deCommit[k] != nil)
@@ -302,7 +302,7 @@ package signing
 //@ define sg5slot(m) = (!isnil(m) && istype(msgcontent(m), "*ecdsa/signing.SignRound5Message") && cast(msgcontent(m), "*ecdsa/signing.SignRound5Message") != nil)
 //@ define sg6slot(m) = (!isnil(m) && istype(msgcontent(m), "*ecdsa/signing.SignRound6Message") && cast(msgcontent(m), "*ecdsa/signing.SignRound6Message") != nil && len(cast(msgcontent(m), "*ecdsa/signing.SignRound6Message").DeCommitment) <= 8192)
 //@ func (*round7).Start
-//@   props C06 C05 C01
+//@   props C06 C05 C01 C20
 //@   requires round != nil && round.round6 != nil && round.round6.round5 != nil && round.round6.round5.round4 != nil && round.round6.round5.round4.round3 != nil && round.round6.round5.round4.round3.round2 != nil && round.round6.round5.round4.round3.round2.round1 != nil && round.round6.round5.round4.round3.round2.round1.base != nil && ecSignWF(round)
 //@   requires [rounds-5-and-6-complete] forall j in 0..sgN(round) :: (j != sgI(round) ==> (sg5slot(round.temp.signRound5Messages[j]) && sg6slot(round.temp.signRound6Messages[j])))
 //@   requires [own-values] round.temp.bigR != nil && validPoint(round.temp.bigR) && round.temp.bigR.curve == round.Parameters.ec && round.temp.bigAi != nil && wfPoint(round.temp.bigAi) && round.temp.bigVi != nil && wfPoint(round.temp.bigVi) && round.temp.m != nil && val(round.temp.m) >= 0 && round.temp.rx != nil && val(round.temp.rx) >= 0 && round.temp.roi != nil && round.temp.li != nil && round.key.ECDSAPub != nil && wfPoint(round.key.ECDSAPub) && len(round.temp.ssid) <= 4096
@@ -318,7 +318,7 @@ package signing
 //@ define sg7slot(m) = (!isnil(m) && istype(msgcontent(m), "*ecdsa/signing.SignRound7Message") && cast(msgcontent(m), "*ecdsa/signing.SignRound7Message") != nil)
 //@ define sg8slot(m) = (!isnil(m) && istype(msgcontent(m), "*ecdsa/signing.SignRound8Message") && cast(msgcontent(m), "*ecdsa/signing.SignRound8Message") != nil && len(cast(msgcontent(m), "*ecdsa/signing.SignRound8Message").DeCommitment) <= 8192)
 //@ func (*round9).Start
-//@   props C06 C05 C01
+//@   props C06 C05 C01 C20
 //@   requires round != nil && round.round8 != nil && round.round8.round7 != nil && round.round8.round7.round6 != nil && round.round8.round7.round6.round5 != nil && round.round8.round7.round6.round5.round4 != nil && round.round8.round7.round6.round5.round4.round3 != nil && round.round8.round7.round6.round5.round4.round3.round2 != nil && round.round8.round7.round6.round5.round4.round3.round2.round1 != nil && round.round8.round7.round6.round5.round4.round3.round2.round1.base != nil && ecSignWF(round)
 //@   requires [rounds-7-and-8-complete] forall j in 0..sgN(round) :: (j != sgI(round) ==> (sg7slot(round.temp.signRound7Messages[j]) && sg8slot(round.temp.signRound8Messages[j])))
 //@   requires [own-values] round.temp.Ui != nil && wfPoint(round.temp.Ui) && round.temp.Ti != nil && wfPoint(round.temp.Ti) && round.temp.si != nil
@@ -328,13 +328,13 @@ package signing
 
 // round_6.go / round_8.go: send-only rounds.
 //@ func (*round6).Start
-//@   props C06 C01
+//@   props C06 C01 C20
 //@   requires round != nil && round.round5 != nil && round.round5.round4 != nil && round.round5.round4.round3 != nil && round.round5.round4.round3.round2 != nil && round.round5.round4.round3.round2.round1 != nil && round.round5.round4.round3.round2.round1.base != nil && ecSignWF(round)
 //@   requires [own-values] round.temp.roi != nil && val(round.temp.roi) >= 0 && round.temp.bigAi != nil && validPoint(round.temp.bigAi) && round.temp.bigAi.curve == round.Parameters.ec && round.temp.bigVi != nil && validPoint(round.temp.bigVi) && round.temp.bigVi.curve == round.Parameters.ec && round.temp.bigR != nil && validPoint(round.temp.bigR) && round.temp.bigR.curve == round.Parameters.ec && round.temp.si != nil && val(round.temp.si) >= 0 && round.temp.li != nil && val(round.temp.li) >= 0 && len(round.temp.ssid) <= 4096 && cap(round.temp.ssid) == len(round.temp.ssid) && (forall k in 0..len(round.temp.DPower) :: round.temp.DPower[k] != nil)
 //@   modifies round.number, round.started, round.ok[*], round.temp.signRound6Messages[*], sent(round.out)
 //@   ensures [C01.nothing-sent-on-error] result != nil ==> sent(old(round.out)) == old(sent(round.out))
 //@ func (*round8).Start
-//@   props C06 C01
+//@   props C06 C01 C20
 //@   requires round != nil && round.round7 != nil && round.round7.round6 != nil && round.round7.round6.round5 != nil && round.round7.round6.round5.round4 != nil && round.round7.round6.round5.round4.round3 != nil && round.round7.round6.round5.round4.round3.round2 != nil && round.round7.round6.round5.round4.round3.round2.round1 != nil && round.round7.round6.round5.round4.round3.round2.round1.base != nil && ecSignWF(round)
 //@   requires forall k in 0..len(round.temp.DTelda) :: round.temp.DTelda[k] != nil
 //@   modifies round.number, round.started, round.ok[*], round.temp.signRound8Messages[*], sent(round.out)
